@@ -8,6 +8,7 @@ from . import _rows
 
 PROP = "C07"
 LEVEL = "exploration"
+ANCHORS = ["_find_domain", "_calc_energy", "System.solve"]  # functions whose reached lines are reported in the evidence
 RULE = (
     "cases = random multi-source SystemSpecs (1-4 sources, PMux joining them with probability 0.6, phases with "
     "probability 0.5) each built in several construction orders (sources first, reverse sources, depth-first, "
